@@ -282,12 +282,12 @@ def global_registry_restored():
         registry.replaces.update(replaces)
 
 
-def run_cli(argv):
+def run_cli(argv, cli=None):
     from json_to_models.cli import Cli
     old = sys.argv
     sys.argv = ["json2models"] + argv
     try:
-        cli = Cli()
+        cli = cli or Cli()
         cli.parse_args(argv)
         return cli.run()
     finally:
@@ -313,14 +313,19 @@ def check_disabled(case):
         argv += ["--disable-str-serializable-types"] + list(disabled)
         with global_registry_restored():
             with contextlib.redirect_stderr(io.StringIO()):
+                cli_obj = None
                 if case.get("prior_datetime_run"):
                     # an earlier in-process run with --datetime has already registered the date/time classes once
                     r.label("after-prior-datetime-run")
+                    if case.get("same_cli_object"):
+                        from json_to_models.cli import Cli
+                        cli_obj = Cli()
+                        r.label("same-cli-object")
                     try:
-                        run_cli(["-m", "Prior", path, "--datetime"])
+                        run_cli(["-m", "Prior", path, "--datetime"], cli_obj)
                     except Exception:  # noqa: BLE001
                         pass
-                ok, out = owned(r, "cli", run_cli, argv)
+                ok, out = owned(r, "cli", run_cli, argv, cli_obj)
     if not ok:
         return r
     try:
@@ -387,7 +392,7 @@ def disabled_cases(draw):
             "fw": draw(st.sampled_from(gen.FRAMEWORKS)),
             "datetime": draw(st.booleans()),
             "disabled": draw(st.lists(st.sampled_from(pool), min_size=0, max_size=4, unique=True)),
-            "prior_datetime_run": draw(st.sampled_from([False, False, True]))}
+            "prior_datetime_run": draw(st.sampled_from([False, False, True])), "same_cli_object": draw(st.booleans())}
 
 
 def all_registry_cases(tier):
